@@ -5,6 +5,7 @@ import (
 	"os"
 	"path/filepath"
 	"strings"
+	"time"
 	"verif/harness/internal/run"
 
 	"gopkg.in/yaml.v3"
@@ -110,10 +111,34 @@ func init() {
 			for _, r := range roots {
 				cases = append(cases, Case{"cmd": "rootspell", "root": r, "via": "attr"}, Case{"cmd": "rootspell", "root": r, "via": "chord"})
 			}
+			// an attribute without a degree has no interval: a chord that uses it cannot be described, wherever it stands
+			for pos := 0; pos < 4; pos++ {
+				for _, ext := range []bool{false, true} {
+					cases = append(cases, Case{"cmd": "baddesc", "pos": pos, "ext": ext})
+				}
+			}
 			return cases
 		},
 		Exec: func(c *Ctx, k Case) []Rec {
 			switch cs(k, "cmd") {
+			case "baddesc":
+				pos := ci(k, "pos")
+				id := fmt.Sprintf("bad%d%v", pos, cb(k, "ext"))
+				fa := c.writeTemp(id+"a.yml", "- name: Bad\n- name: Fine\n  degree: \"b7\"\n")
+				attrs := []string{"Perfect1", "Major3", "Perfect5", "Fine"}
+				attrs = append(attrs[:pos], append([]string{"Bad"}, attrs[pos:]...)...)
+				dict := "- name: Broken\n  meta: {display: brk}\n  attributes: [" + strings.Join(attrs, ", ") + "]\n"
+				target := "C_brk"
+				if cb(k, "ext") { // reached through extends
+					dict += "- name: Child\n  meta: {display: chd}\n  extends: Broken\n  attributes: [Major9]\n"
+					target = "C_chd"
+				}
+				fc := c.writeTemp(id+"c.yml", dict)
+				r := c.crd([]string{"info", "chord", "describe", "--attr", fa, "--chord", fc, "-t", target}, nil)
+				os.Remove(fa)
+				os.Remove(fc)
+				return []Rec{{"kind": "baddesc", "sub": id, "pos": pos, "ext": cb(k, "ext"), "refused": r.Exit > 0 && len(r.Stdout) == 0 && len(r.Stderr) > 0 && !r.Panic,
+					"exit": r.Exit, "stdoutLen": len(r.Stdout), "stderrLen": len(r.Stderr), "terminated": !r.TimedOut, "panic": r.Panic}}
 			case "rootspell":
 				root, via := cs(k, "root"), cs(k, "via")
 				rec := Rec{"kind": "rootspell", "sub": via, "root": chars(root), "via": via, "ok": false, "outRoot": []int{}, "applied": []int{}}
@@ -152,10 +177,24 @@ func init() {
 				id := fmt.Sprintf("d_%x_%s_%v", deg, strings.ReplaceAll(cs(k, "root"), "#", "s"), cb(k, "sharp"))
 				f := c.writeTemp(id+".yml", fmt.Sprintf("- name: X\n  degree: %q\n", deg))
 				args := []string{"info", "attr", "describe", "--attr", f, "-t", "X", "-r", cs(k, "root")}
-				if cb(k, "sharp") {
+				// the accidental preference in all its spellings: -s / nothing, --precedeSharp=true|false, -s=true|false
+				form := (len(deg)*7 + len(cs(k, "root"))*3 + int(deg[len(deg)-1])) % 3
+				switch {
+				case form == 1:
+					args = append(args, fmt.Sprintf("--precedeSharp=%v", cb(k, "sharp")))
+				case form == 2:
+					args = append(args, fmt.Sprintf("-s=%v", cb(k, "sharp")))
+				case cb(k, "sharp"):
 					args = append(args, "-s")
 				}
-				r := c.crd(args, nil)
+				var r run.Result
+				if (len(deg)+int(deg[len(deg)-1]))%5 == 0 { // the attribute file arrives through a named pipe
+					content, _ := os.ReadFile(f)
+					os.Remove(f)
+					r = run.Run(c.Bin, run.Cmd{Args: args, Timeout: 20 * time.Second, Fifos: map[string][]byte{f: content}})
+				} else {
+					r = c.crd(args, nil)
+				}
 				os.Remove(f)
 				var ai yAttrInfo
 				rec := Rec{"kind": "describe", "degree": chars(deg), "root": chars(cs(k, "root")), "sharp": cb(k, "sharp"),
